@@ -4,7 +4,7 @@ CFG = dict(
         level="proof",
         lean_modules=["ElysModel.Props.C02"],
         props_files=["ElysModel/Props/C02.lean"],
-        runs=[hist_run(focus="amm."), gentrip_run(focus="amm.")],
+        runs=[scn_run("c02"), hist_run(focus="amm."), gentrip_run(focus="amm.")],
         rule=HIST_RULE,
         trusted_base=COMMON_TB + ["share mint/burn macro-ops recognised from x/bank events (coinbase -> send -> commit; uncommit -> send -> burn)"],
         assumptions=["call-site fact used by the theorem: shares are committed only by MintPoolShareToAccount and uncommitted only by exit/unbond paths"],
